@@ -27,6 +27,7 @@ type mercScn struct {
 	codec      J
 	prev       any
 	noLabel    bool
+	outage     int // this many correct observers have no valid max-finalized value this round (failed lookup)
 }
 
 func mercI192(v *big.Int) string {
@@ -343,7 +344,22 @@ func (s *mercScn) round(g *G) (aos []any, hidx []any) {
 	}
 	var l []lv
 	for i := 0; i < s.n-s.b; i++ {
-		l = append(l, lv{s.honest(g), true})
+		o := s.honest(g)
+		if i < s.outage {
+			// a correct node whose mercury-server lookup failed sends the zero value flagged invalid
+			if s.v == 1 {
+				o["mfbn"], o["mfbnValid"] = "0", false
+			} else {
+				o["mft"], o["mftValid"] = "0", false
+			}
+		} else if s.outage > 0 {
+			if s.v == 1 {
+				o["mfbn"], o["mfbnValid"] = S(s.mft), true
+			} else {
+				o["mft"], o["mftValid"] = S(s.mft), true
+			}
+		}
+		l = append(l, lv{o, true})
 	}
 	for i := 0; i < s.b; i++ {
 		l = append(l, lv{s.faulty(g), false})
@@ -440,6 +456,15 @@ func genMercReports(g *G) {
 				s.b = 0
 			}
 			tag = "overrun"
+		case 2: // partial outage of the max-finalized lookup among the correct observers
+			if s.n >= 2*s.f+2 {
+				s.b = 0
+				s.outage = s.n - (s.f + 1)
+				if g.R.Intn(2) == 0 {
+					s.prev = nil
+				}
+				tag = "mf-outage"
+			}
 		}
 		g.Emit(s.reportOp(g), mercTags(s, tag)...)
 	}
@@ -635,6 +660,13 @@ func genMercHistories(g *G) {
 			if g.R.Intn(15) == 0 {
 				s.n, s.b = g.R.Intn(s.f+1), 0 // a round that fails
 			}
+			s.outage = 0
+			if g.R.Intn(5) == 0 && s.n >= 2*s.f+2 {
+				// partial outage of the max-finalized lookup: exactly f+1 correct observers still agree on
+				// the value, all others (at least as many) have none
+				s.b = 0
+				s.outage = s.n - (s.f + 1)
+			}
 			aos, hidx := s.round(g)
 			rounds = append(rounds, aos)
 			labels = append(labels, hidx)
@@ -689,6 +721,36 @@ func genMercHistories(g *G) {
 			}
 			g.Emit(J{"op": "mercury.history", "v": v, "cfg": s.cfg(), "codec": s.codec, "prev": nil, "rounds": rounds, "honest": labels},
 				fmt.Sprintf("v%d", v), "history", "K5-bootstrap-maxint64")
+		}
+	}
+	// directed: bootstrap round in which f+1 correct observers agree on a positive max-finalized value
+	// and at least as many correct observers have none (a tie / majority of "no value" must not vote)
+	for v := 1; v <= 4; v++ {
+		for _, extra := range []int{1, 2} {
+			s := mercBase(g, v)
+			s.b = 0
+			s.n = 2*s.f + 1 + extra
+			if s.n > 3*s.f+1 {
+				s.n = 3*s.f + 1
+			}
+			if s.n < 2*s.f+2 {
+				continue
+			}
+			var rounds, labels []any
+			for r := 0; r < 3; r++ {
+				s.outage = 0
+				if r == 0 {
+					s.outage = s.n - (s.f + 1)
+				}
+				aos, hidx := s.round(g)
+				rounds = append(rounds, aos)
+				labels = append(labels, hidx)
+				s.T = mercSatAdd(s.T, 2)
+				s.top += 2
+			}
+			s.outage = 0
+			g.Emit(J{"op": "mercury.history", "v": v, "cfg": s.cfg(), "codec": s.codec, "prev": nil, "rounds": rounds, "honest": labels},
+				fmt.Sprintf("v%d", v), "history", "bootstrap-outage")
 		}
 	}
 	// directed v1: chain advancing one block per round, stalling, bootstrap from -1
